@@ -308,6 +308,8 @@ def gen_cron_field(rng, lo, hi, want):
         n = rng.choice([2, 3, 5, 10, 15])
         return f"*/{n}"
     a = max(lo, v - rng.randint(0, 5))
+    if a >= hi:                     # never a degenerate range N-N[/k]: croniter 6.2.4 reads it as "*"[/k] (see notes/C07.md)
+        a = hi - 1
     return f"{a}-{hi}/{rng.choice([1, 2, 3])}"
 
 
@@ -454,7 +456,10 @@ def maybe_repeat(rng, case, p=0.3):
     """with probability p the function repeats its trigger decorators of a kind (2-3 @event_trigger, 2 @state_trigger on
     different entities, 2 @time_trigger); every occurrence comes from one of them (`src`)"""
     ops = case["ops"]
-    if rng.random() >= p or any(o.get("burst") for o in ops):
+    # "now"-relative end points refer to the start-up time of the trigger task; in the legacy subsystem every repeated
+    # decorator has its own task (start-up instants one clock reading apart), the Model has one start-up time per case
+    has_now = any(e.get("now") for sp in ((case.get("ta") or {}).get("specs") or []) if "range" in sp for e in sp["range"])
+    if rng.random() >= p or has_now or any(o.get("burst") for o in ops):
         return case
     kinds = {o["k"] for o in ops}
     ntrig = {}
